@@ -776,6 +776,119 @@ def dsk12(ctx, c):
                 "the length of the last granule is computed as %s; it is stream - (granules - 1) * 2304" % repr(L)[:200], where)
 
 
+def dsk13(ctx, c):
+    """DSK-13 the three length functions evaluated for every stream length and file kind: implied length = stored stream."""
+    from ..consteval import fold_body
+    repo = ctx.repo
+    fns = {n: repo.method(CLS, n) for n in ("calculate_granules_needed", "calculate_last_sector_bytes_used", "calculate_last_granules_sectors_used", "calculate_sectors_needed")}
+    where = repo.loc(fns["calculate_granules_needed"], fns["calculate_granules_needed"].node)
+
+    class Data(list):
+        pass
+
+    def call(name, env_args):
+        f = fns[name]
+        params = [p for p in f.params if p not in ("self", "cls")]
+        env = dict(ctx.env)
+        for p, v in zip(params, env_args):
+            env[p] = v
+            if isinstance(v, dict):
+                for k2, v2 in v.items():
+                    env["%s.%s" % (p, k2)] = v2
+                env[p] = True
+        # static siblings called by name
+        def sub(n2):
+            return lambda *a: call(n2, a)
+        return _fold_with_calls(body_without_doc(f.node), env, {"DiskFile.%s" % k: k for k in fns} | {"self.%s" % k: k for k in fns}, call)
+
+    kinds = {"ML": ({"length": 5}, {"length": 5}), "BASIC": ({"length": 3}, None), "ASCII": ({"length": 0}, None)}
+    bad = None
+    n = 0
+    try:
+        for kind, (pre, post) in kinds.items():
+            extra = pre["length"] + (post["length"] if post else 0)
+            lens = set()
+            top = (3 * D.GRANULE_LEN) if ctx.tier == "quick" else (8 * D.GRANULE_LEN)
+            for k in range(0, top + 1, D.BYTES_PER_SECTOR):
+                for d_ in range(-7, 8):
+                    if k - extra + d_ >= 0:
+                        lens.add(k - extra + d_)
+            lens |= {0, 1, 2, 100, 1000, 3000, 65535, 65535 - extra, 20 * D.GRANULE_LEN - extra, 20 * D.GRANULE_LEN - extra - 1}
+            if ctx.tier != "quick":
+                lens |= set(range(0, 2 * D.GRANULE_LEN + 600))
+            for ln in sorted(lens):
+                data = range(ln)
+                stream = ln + extra
+                g = call("calculate_granules_needed", (data, pre, post))
+                s_ = call("calculate_last_granules_sectors_used", (data, pre, post))
+                b = call("calculate_last_sector_bytes_used", (data, pre, post))
+                n += 1
+                ok = isinstance(g, int) and isinstance(s_, int) and isinstance(b, int) and (g - 1) * D.GRANULE_LEN <= stream < g * D.GRANULE_LEN \
+                    and 1 <= s_ <= D.GRANULE_SECTORS and 0 <= b <= D.BYTES_PER_SECTOR and (g - 1) * D.GRANULE_LEN + (s_ - 1) * D.BYTES_PER_SECTOR + b == stream
+                if not ok:
+                    bad = (kind, ln, stream, g, s_, b)
+                    break
+            if bad:
+                break
+    except NotConst as e:
+        c.undecided("length functions", "not-foldable", str(e), where)
+        return
+    if bad:
+        c.finding("length functions", "%s file of %d bytes (stream %d): %s granules, %s sectors, %s bytes in last sector" % bad,
+                  "for a %s file of %d data bytes (stored stream %d bytes) the writer records %s granule(s), %s sector(s) in the last granule and %s byte(s) in the last sector: "
+                  "the length implied by these three (and the room actually allocated) differs from the stream, or a count is out of range (1-9 sectors, 0-256 bytes)" % bad, where)
+    else:
+        c.ok("length functions", "granules/sectors/bytes consistent with the stream for %d (kind, length) cases" % n, where)
+
+
+def _fold_with_calls(stmts, env, callmap, call):
+    """fold_body with calls to sibling length functions resolved by re-entry"""
+    from ..consteval import fold_body, fold
+    import copy
+
+    class R(ast.NodeTransformer):
+        def visit_Call(self, node):
+            self.generic_visit(node)
+            fn = U(node.func)
+            if fn in callmap:
+                args = []
+                for a in node.args:
+                    if isinstance(a, ast.Name) and a.id in env and env[a.id] is True and any(k.startswith(a.id + ".") for k in env):
+                        args.append({k.split(".", 1)[1]: v for k, v in env.items() if k.startswith(a.id + ".")})
+                    elif isinstance(a, ast.Name) and a.id in env and env[a.id] is None:
+                        args.append(None)
+                    else:
+                        args.append(fold(a, env))
+                return ast.Constant(call(callmap[fn], args))
+            return node
+    # resolve calls lazily: statements are folded one by one so that calls see the current locals
+    env = dict(env)
+    from ..consteval import Returned, BIN
+
+    def run(stmts):
+        for st in stmts:
+            st2 = R().visit(copy.deepcopy(st)) if any(isinstance(x, ast.Call) and U(x.func) in callmap for x in ast.walk(st)) else st
+            if isinstance(st2, ast.Expr) and isinstance(st2.value, ast.Constant):
+                continue
+            if isinstance(st2, ast.Assign) and len(st2.targets) == 1 and isinstance(st2.targets[0], ast.Name):
+                env[st2.targets[0].id] = fold(st2.value, env)
+            elif isinstance(st2, ast.AugAssign) and isinstance(st2.target, ast.Name) and type(st2.op) in BIN:
+                if st2.target.id not in env:
+                    raise NotConst(st2.target.id)
+                env[st2.target.id] = BIN[type(st2.op)](env[st2.target.id], fold(st2.value, env))
+            elif isinstance(st2, ast.If):
+                run(st2.body if fold(st2.test, env) else st2.orelse)
+            elif isinstance(st2, ast.Return):
+                raise Returned(fold(st2.value, env) if st2.value is not None else None)
+            else:
+                raise NotConst("statement " + type(st2).__name__)
+    try:
+        run(stmts)
+    except Returned as r:
+        return r.value
+    return None
+
+
 def _stream_len(o, p_data):
     """find the Lin that contains call:len(<data>) in the outcome (value or env)"""
     cands = [o.value] + list(o.path.env.values())
@@ -837,7 +950,7 @@ def vf6(ctx, c):
 
 
 
-RULES = {"VF-6": vf6, "DSK-1": dsk1, "DSK-2": dsk2, "DSK-3": dsk3, "DSK-4": dsk4, "DSK-6": dsk6, "DSK-7": dsk7, "DSK-12": dsk12}
+RULES = {"DSK-13": dsk13, "VF-6": vf6, "DSK-1": dsk1, "DSK-2": dsk2, "DSK-3": dsk3, "DSK-4": dsk4, "DSK-6": dsk6, "DSK-7": dsk7, "DSK-12": dsk12}
 
 
 def dsk5(ctx, c):
